@@ -48,6 +48,41 @@ def gen_workers(rng, nworkers):
     return out
 
 
+def gen_slot_handover(rng, binary=None, workdir=None):
+    """three workers on two slots: worker 0 leaves while worker 1 enters on the slot being released, worker 1 then reads
+    and keeps what it read; worker 2 (other slot) removes / overwrites that key and leaves; epoch and gc threads run;
+    worker 1 leaves last.  The hand-over is placed inside worker 0's leave (between its stores, located by a dry run)
+    and inside worker 1's enter."""
+    k = rng.choice(KEYS)
+    w0 = ["enter", "get " + hx(rng.choice(KEYS)), "leave"]
+    w1 = ["enter", "get " + hx(k), "get " + hx(k), "leave"]
+    w2 = ["enter", rng.choice(["rem " + hx(k), "put %s %s" % (hx(k), hx(b"new"))]), "leave"]
+    workers = [w0, w1, w2]
+    E, G = 3, 4
+    a0 = None
+    if binary is not None:
+        # dry run: worker 0 alone; the step at which it stores running = false in leave
+        f = os.path.join(workdir, "dry.txt")
+        with open(f, "w") as fh:
+            fh.write(scen_text("mode script seg 0:2000 maxsteps 60000", workers))
+        rc, out = C.sh([binary, f], timeout=60, merge=False)
+        n = 0
+        for ln in out.split("\n"):
+            t = ln.split(" ")
+            if ln.startswith("E ") and t[2] == "0" and t[7] == "-1":
+                n += 1
+                if t[3] == "1" and t[4] == "5":
+                    a0 = n
+    modes = []
+    for i in range(60):
+        a = (a0 + rng.choice([-1, 0, 0, 1, 1, 2])) if (a0 and i % 2 == 0) else rng.randrange(8, 70)
+        segs = [(0, a), (1, rng.choice([4, 5, 6, 7, 8, 12, 30])), (0, rng.randrange(1, 6)), (1, rng.randrange(5, 40)),
+                (2, rng.randrange(60, 220)), (E, rng.randrange(8, 50)), (G, rng.randrange(10, 80)),
+                (E, rng.randrange(0, 30)), (G, rng.randrange(0, 60))]
+        modes.append("mode script " + " ".join("seg %d:%d" % sg for sg in segs) + " maxsteps 60000")
+    return workers, modes
+
+
 def scen_text(mode_line, workers):
     out = [mode_line]
     for k in KEYS:
@@ -188,6 +223,12 @@ def run(tier, seed):
         workers = gen_workers(rng, nw)
         for mode in gen_modes(rng, nw, per):
             jobs.append((builds[cap], scen_text(mode, workers)))
+
+    # slot hand-over between a leaving and an entering session (three workers, two slots)
+    for _ in range(2 if tier == "quick" else 10):
+        workers, modes = gen_slot_handover(rng, builds[2], wd)
+        for mode in modes:
+            jobs.append((builds[2], scen_text(mode, workers)))
 
     def go(ij):
         i, (b, t) = ij
